@@ -110,7 +110,10 @@ def dump_atom(k, d):
     for key in sorted(x for x in d if isinstance(x, str)):
         if key in FIELD_KEYS or key in SKIP_KEYS:
             continue
-        extra.append([key, canon_text(d[key])])
+        val = d[key]
+        if key == 'ez_isomer':
+            val = sorted(val)       # appended in a set-iteration order
+        extra.append([key, canon_text(val)])
     hc = d.get('hcount', 0)
     return {'k': k, 'el': d.get('element', ''), 'an': d.get('atomname', '') or '',
             'fn': d.get('fragname', '') or '', 'fid': list(fid),
